@@ -30,6 +30,9 @@ void h_worker(void) { MK_POOL(p); tp_worker(p);
   if (tm.pool_dead) SENT("worker left because its job destroyed the pool");
   else if (CUR == 0) SENT("worker left because its job stopped the pool");
   else SENT("worker left because it saw the exit flag");
+  /* the pool stopped / destroyed from this worker by the DESTRUCTION of the executed closure (last shared_ptr owner of the pool is a capture of the job) */
+  if (tm.stopped_in_dtor && tm.pool_dead) SENT("worker left because the destruction of its executed job destroyed the pool");
+  if (tm.stopped_in_dtor && !tm.pool_dead) SENT("worker left because the destruction of its executed job stopped the pool");
   if (tm.n_deq > 1) SENT("worker ran more than one closure");
   if (tm.c_invoked) SENT("worker ran the tracked closure"); }
 #endif
